@@ -129,7 +129,7 @@ UNITS = {
                          "unwound 66 times: exhaustive, unwinding assertions are obligations"],
     },
     "reset_restores_initial_state": {
-        "props": ["C10"], "tier": "quick", "file": "src/lib.rs",
+        "props": ["C10"], "tier": "quick", "file": "src/lib.rs", "playback": "cbmc",
         "doc": "Hasher::new()/new_keyed(any key), set_input_offset(1024*k) for any k, reset(): count() == 0 without "
                "panic and every field equals the one of a fresh Hasher",
         "functions": [("crate::Hasher::reset", "src/lib.rs", r"\bpub\s+fn\s+reset\s*\(\s*&mut\s+self"),
@@ -218,7 +218,7 @@ def locate_functions(d, unit):
 # ------------------------------------------------------------------------------------------ parse
 
 CHECK_RE = re.compile(
-    r"Check (\d+): (.+?)\n\s*- Status: (\w+)\n\s*- Description: \"(.*)\"\n\s*- Location: (.*)")
+    r"Check (\d+): (.+?)\n\s*- Status: (\w+)\n\s*- Description: \"(.*)\"(?:\n\s*- Location: (.*))?")
 LOC_RE = re.compile(r"^(.*?):(\d+):(\d+) in function (.*)$")
 
 
@@ -234,7 +234,7 @@ def parse_output(out):
             desc = m.group(4)
             if len(desc) >= 2 and desc[0] == '"' and desc[-1] == '"':
                 desc = desc[1:-1]
-            loc = m.group(5).strip()
+            loc = (m.group(5) or "").strip()
             lm = LOC_RE.match(loc)
             checks.append({
                 "n": int(m.group(1)), "id": m.group(2), "status": m.group(3), "description": desc,
@@ -243,8 +243,10 @@ def parse_output(out):
             })
         sm = re.search(r"\*\* (\d+) of (\d+) failed", body)
         vm = re.search(r"VERIFICATION:- (\w+)", body)
+        tm = re.search(r"Verification Time: ([0-9.]+)s", body)
         res[name] = {"checks": checks, "summary": (int(sm.group(1)), int(sm.group(2))) if sm else None,
-                     "verdict": vm.group(1) if vm else None, "playback": [], "body": body}
+                     "verdict": vm.group(1) if vm else None, "playback": [], "body": body,
+                     "seconds": float(tm.group(1)) if tm else None}
     for m in re.finditer(r"Concrete playback unit test for `([^`]+)`:\s*\n```\n(.*?)\n```", out, flags=re.S):
         h, code = m.group(1), m.group(2)
         cm = re.search(r"/// Check for `(\w+)`: \"(.*)\"", code)
@@ -325,10 +327,22 @@ def _repo_function(kani_fn):
         ty = re.sub(r"<.*>", "", m.group(1))
         tr = re.sub(r"<.*>", "", m.group(2)).split("::")[-1]
         return "crate::%s::%s__%s" % (ty.replace("crate::", ""), tr, m.group(3))
+    f = re.sub(r"::<[^:]*>$", "", f)          # monomorphization suffix  from_hex::<&[u8; 64]>
     return "crate::" + f
 
 
 # -------------------------------------------------------------------------------------------- run
+
+def _kani_cmd(unit, harnesses, playback=False, exact=False):
+    cmd = ["cargo", "kani", "--verbose", "--features", FEATURES]
+    for h in harnesses:
+        cmd += ["--harness", h if exact else "vf_kani_%s::%s" % (unit, h)]
+    if exact:
+        cmd += ["--exact"]
+    if playback:
+        cmd += ["-Z", "concrete-playback", "--concrete-playback=print"]
+    return cmd + list(UNITS[unit].get("args", []))
+
 
 def run_unit(name, tier="quick", keep=None, timeout=None):
     u = UNITS[name]
@@ -352,23 +366,88 @@ def run_unit(name, tier="quick", keep=None, timeout=None):
         if missing:
             res["undecided_reason"] = "lost anchor: function(s) not found in the working tree: " + ", ".join(missing)
             return res
-        tdir = os.path.join(d, "target")
-        cmd = ["cargo", "kani", "--features", FEATURES]
-        for h in u["harnesses"]:
-            cmd += ["--harness", "vf_kani_%s::%s" % (name, h)]
-        cmd += ["-Z", "concrete-playback", "--concrete-playback=print"] + list(u.get("args", []))
-        res["cmd"] = ("cd <scratch copy of %s + kani/%s.rs appended to %s> && CARGO_NET_OFFLINE=true "
+        env = {"CARGO_TARGET_DIR": os.path.join(d, "target"), "CARGO_NET_OFFLINE": "true"}
+        cmd = _kani_cmd(name, list(u["harnesses"]))
+        res["cmd"] = ("cd <scratch copy of %s with kani/%s.rs appended to %s> && CARGO_NET_OFFLINE=true "
                       "CARGO_TARGET_DIR=<scratch>/target %s" % (common.REPO, name, u["file"], " ".join(cmd)))
-        rc, out, errtxt, secs = run(cmd, timeout=timeout or u.get("timeout", 600), mem_gb=16, cwd=d,
-                                    env={"CARGO_TARGET_DIR": tdir, "CARGO_NET_OFFLINE": "true"})
+        rc, out, errtxt, secs = run(cmd, timeout=timeout or u.get("timeout", 600), mem_gb=16, cwd=d, env=env)
         res["solver_seconds"] = round(sum(float(x) for x in re.findall(r"Verification Time: ([0-9.]+)s", out)), 2)
         parsed = parse_output(out)
         _classify(res, u, name, parsed, rc, out, errtxt, start)
+        if res["failed"]:
+            _attach_inputs(res, u, name, parsed, d, env)
         return res
     finally:
         res["seconds"] = round(time.time() - t0, 2)
         if not keep:
             rm_rf(d)
+
+
+# ------------------------------------------------------------------------- counterexample values
+
+def _attach_inputs(res, u, unit, parsed, d, env):
+    """Second phase, only for failing harnesses: concrete values of the harness's kani::any() calls.
+    (1) Kani's concrete playback (`-Z concrete-playback --concrete-playback=print`); Kani asks CBMC
+        for a trace of EVERY failed property including its internal reachability checks, which is
+        prohibitive for harnesses that move large structs (Hasher: 2 GB of JSON) -> time-boxed;
+    (2) otherwise / on failure: CBMC itself, with the command line Kani used, restricted to the one
+        failed property (`--property ID --trace --compact-trace`); the return values of
+        kani::any_raw_* in trace order are the same byte vectors Kani's playback prints."""
+    by_h = {}
+    for fo in res["failed"]:
+        by_h.setdefault(fo["_harness"], []).append(fo)
+    for hname, fos in by_h.items():
+        full, h = next(((f, x) for f, x in parsed.items() if f.split("::")[-1] == hname), (None, None))
+        schema = u["harnesses"][hname]
+        todo = list(fos)
+        if u.get("playback", "kani") == "kani":
+            cmd = _kani_cmd(unit, [full], playback=True, exact=True)
+            rc, out, err, secs = run(cmd, timeout=u.get("playback_timeout", 180), mem_gb=16, cwd=d, env=env)
+            pbs = [p for p in parse_output(out).get(full, {}).get("playback", []) if p["kind"] != "cover"]
+            for fo in list(todo):
+                pb = next((p for p in pbs if p["check"] == fo["message"]), None)
+                if pb:
+                    fo["inputs"] = decode_inputs(schema, pb["vals"])
+                    fo["inputs_source"] = "kani concrete playback: " + " ".join(cmd)
+                    todo.remove(fo)
+        for fo in todo[:4]:
+            vals, cmdtxt = _cbmc_trace_values(h, fo["_check_id"], d)
+            if vals is not None:
+                fo["inputs"] = decode_inputs(schema, vals)
+                fo["inputs_source"] = "cbmc trace of the single failed property: " + cmdtxt
+    for fo in res["failed"]:
+        fo.pop("_harness", None)
+        fo.pop("_check_id", None)
+
+
+def _cbmc_trace_values(h, check_id, d):
+    m = re.search(r"\[Kani\] Running: `(cbmc [^`]*)`", h["body"] if h else "")
+    if not m:
+        return None, ""
+    import shlex
+    argv = shlex.split(m.group(1))
+    out_argv, skip = [], False
+    for a in argv:
+        if skip:
+            skip = False
+            continue
+        if a == "--verbosity":
+            skip = True
+            continue
+        if a in ("--json-ui", "--trace", "--compact-trace"):
+            continue
+        out_argv.append(a)
+    out_argv += ["--property", check_id, "--trace", "--compact-trace"]
+    rc, out, err, secs = run(out_argv, timeout=300, mem_gb=16, cwd=d)
+    vals = []
+    for mm in re.finditer(r"^\s*\d+: goto_symex\$\$return_value\$\$\S*any_raw\S*=.*\(([01 ]+)\)\s*$", out, flags=re.M):
+        bits = mm.group(1).replace(" ", "")
+        if len(bits) % 8:
+            continue
+        vals.append(list(int(bits, 2).to_bytes(len(bits) // 8, "little")))
+    if "Trace for" not in out and "VERIFICATION FAILED" not in out:
+        return None, ""
+    return vals, " ".join(out_argv).replace(d, "<scratch>")
 
 
 def _classify(res, u, unit, parsed, rc, out, errtxt, mod_start):
@@ -423,21 +502,13 @@ def _classify(res, u, unit, parsed, rc, out, errtxt, mod_start):
                 loc = None
                 if in_harness:
                     loc = "verif:kani/%s.rs:%d" % (unit, c["line"] - mod_start + 1)
-            pb = None
-            for p in h["playback"]:
-                if p["kind"] != "cover" and p["check"] == c["description"]:
-                    pb = p
-                    break
-            if pb is None:
-                pb = next((p for p in h["playback"] if p["kind"] != "cover"), None)
-            inputs = decode_inputs(schema, pb["vals"]) if pb else None
-            if inputs is not None and pb and pb["check"] != c["description"]:
-                inputs["_from_check"] = pb["check"]
-            failed.append(failed_obligation(
+            fo = failed_obligation(
                 fn, _kind(c["description"], c["id"]), c["description"], location=loc,
-                clause="%s [harness %s]" % (c["description"], hname), inputs=inputs,
+                clause="%s [harness %s]" % (c["description"], hname), inputs=None,
                 raw="Check %d: %s\n - Status: %s\n - Description: %s\n - Location: %s" % (
-                    c["n"], c["id"], c["status"], c["description"], c["location"])))
+                    c["n"], c["id"], c["status"], c["description"], c["location"]))
+            fo["_harness"], fo["_check_id"] = hname, c["id"]
+            failed.append(fo)
         if h["verdict"] != "SUCCESSFUL" and nfail == 0:
             undec.append("harness %s: VERIFICATION:- %s with 0 failed checks" % (hname, h["verdict"]))
         for c in proper:
@@ -449,7 +520,8 @@ def _classify(res, u, unit, parsed, rc, out, errtxt, mod_start):
     res["discharged"] = discharged
     res["failed"] = failed
     res["samples"] = samples
-    res["harnesses"] = {k: {"verdict": v[1]["verdict"], "checks": v[1]["summary"][1] if v[1]["summary"] else 0}
+    res["harnesses"] = {k: {"verdict": v[1]["verdict"], "checks": v[1]["summary"][1] if v[1]["summary"] else 0,
+                            "seconds": v[1]["seconds"]}
                         for k, v in by_short.items()}
     if failed:
         res["status"] = "fail"
